@@ -104,7 +104,6 @@ pub(crate) fn types_equal(a: u32, b: u32, types: &PortableRegistry) -> bool {
         let verdict = types_equal_inner(
             a,
             &GenericsList::empty(),
-            &mut HashSet::new(),
             b,
             &GenericsList::empty(),
             &mut HashSet::new(),
@@ -113,15 +112,13 @@ pub(crate) fn types_equal(a: u32, b: u32, types: &PortableRegistry) -> bool {
         );
         crate::verif_hooks::emit("te:query", a, b, verdict as u32);
     }
-    let mut a_visited = HashSet::new();
-    let mut b_visited = HashSet::new();
+    let mut visited = HashSet::new();
     types_equal_inner(
         a,
         &GenericsList::empty(),
-        &mut a_visited,
         b,
         &GenericsList::empty(),
-        &mut b_visited,
+        &mut visited,
         types,
         true,
     )
@@ -131,10 +128,9 @@ pub(crate) fn types_equal(a: u32, b: u32, types: &PortableRegistry) -> bool {
 fn types_equal_inner(
     a: u32,
     a_parent_params: &GenericsList,
-    a_visited: &mut HashSet<u32>,
     b: u32,
     b_parent_params: &GenericsList,
-    b_visited: &mut HashSet<u32>,
+    visited: &mut HashSet<(u32, u32)>,
     types: &PortableRegistry,
     is_root: bool,
 ) -> bool {
@@ -145,19 +141,10 @@ fn types_equal_inner(
         return true;
     }
 
-    // Make note of these IDs in case we recurse and see them again.
-    let seen_a = !a_visited.insert(a);
-    let seen_b = !b_visited.insert(b);
-
-    // One type is recursive and the other isn't; they are different.
-    // If neither type is recursive, we keep checking.
-    if seen_a != seen_b {
-        return false;
-    }
-
-    // Both types are recursive, and they look the same based on the above,
-    // so assume all is well, since we've already checked other things in prev recursion.
-    if seen_a && seen_b {
+    // Make note of this pair of IDs in case we recurse and see it again. If we do, the pair is
+    // either still being compared further up the stack or was already found equal (a mismatch
+    // anywhere ends the whole comparison), so nothing new can be learned from it here.
+    if !visited.insert((a, b)) {
         #[cfg(feature = "verif-hooks")]
         crate::verif_hooks::emit("te:both-seen", a, b, 0);
         return true;
@@ -173,7 +160,7 @@ fn types_equal_inner(
     // Capture a few variables to avoid some repetition later when we recurse.
     let mut types_equal_recurse =
         |a: u32, a_params: &GenericsList, b: u32, b_params: &GenericsList| -> bool {
-            types_equal_inner(a, a_params, a_visited, b, b_params, b_visited, types, false)
+            types_equal_inner(a, a_params, b, b_params, visited, types, false)
         };
 
     // We'll lazily extend our type params only if the shapes match.
